@@ -1481,5 +1481,6 @@ impl StoryState {
 
     pub(crate) fn reset_errors(&mut self) {
         self.current_errors.clear();
+        self.current_warnings.clear();
     }
 }
